@@ -141,7 +141,13 @@ func (index *indexComparison) compareNodeByName(a, b *Node) int {
 	case bIsInt:
 		return 1
 	default:
-		return cmp.Compare(aFeature.RawString(index), bFeature.RawString(index))
+		if c := cmp.Compare(aFeature.RawString(index), bFeature.RawString(index)); c != 0 {
+			return c
+		}
+		// Labels of different types can be spelled alike, such as the
+		// regular field "#a" and the definition #a. Order them by type
+		// so that the result does not depend on map iteration order.
+		return cmp.Compare(aFeature.Typ(), bFeature.Typ())
 	}
 }
 
